@@ -48,6 +48,11 @@ func c05Gen(idx int) vfbScenario {
 		sc.PeriodS = 2
 	}
 	sc.CatchupS = []int{0, 1}[rng.Intn(2)]
+	if idx%3 == 2 {
+		// the rate family: a long period against a 1 s catch-up period makes "waited for the next tick" and "went on
+		// after the catch-up period" distinguishable in logical seconds
+		sc.PeriodS, sc.CatchupS = 10, 1
+	}
 	// denser fault scripts than W1's default, incl. outages that leave fewer than t nodes
 	honest := sc.N - len(sc.Corrupted)
 	extra := rng.Range(1, 3)
@@ -76,14 +81,38 @@ func c05Run(run *vfRun, sc vfbScenario) {
 	lastEmit := map[int]uint64{} // node -> highest round it emitted a partial for
 	restarted := map[int]bool{}
 	nontrivial := false
+	// catch-up RATE, event by event (cases idx%3==2): when a node that is behind its clock has just run its own
+	// aggregation of round r (hook aggregator.beforeput), its partial for r+1 must leave after the catch-up period,
+	// not at the next period tick. Both instants are read on the node's own fake clock.
+	victim := -1
+	var fineSteps int32
+	hookNote := map[[2]uint64]string{}
+	var victimLog []string
+	hookAt := map[[2]uint64]int64{}
+	emitAt := map[[2]uint64]int64{}
 	vfbRunScenario(run, sc, vfbScenarioHooks{
 		afterStart: func(nt *vfbNet, adv *vfbAdversary) {
 			if sc.Index%3 == 2 {
-				// interleaving pressure: let the sync path win its race against the node's own aggregation whenever a
-				// live sync stream is about to store the same round (park the aggregator briefly before its Put)
+				// interleaving pressure on ONE node: its own aggregation is parked briefly before the Put so that a live
+				// sync stream from a peer (which aggregated the same round unhindered) stores the round first
+				victim = sc.Index / 3 % nt.cfg.N
+				if vn := nt.nodes[victim]; vn.logger != nil {
+					vn.logger.sink = func(level, msg string, kv []interface{}) {
+						line := fmt.Sprintf("%d %s %s %v", vn.clk.Now().Unix(), level, msg, kv)
+						if !strings.Contains(line, "catchup") && !strings.Contains(line, "beacon_loop") && !strings.Contains(line, "chain_store") && !strings.Contains(line, "broadcast") {
+							return
+						}
+						emu.Lock()
+						victimLog = append(victimLog, line)
+						if len(victimLog) > 400 {
+							victimLog = victimLog[200:]
+						}
+						emu.Unlock()
+					}
+				}
 				nt.mu.Lock()
 				nt.onHook = func(name string, n *vfbNode, args []any) {
-					if name != "aggregator.beforeput" || len(args) == 0 {
+					if name != "aggregator.beforeput" || len(args) == 0 || n.pos != victim {
 						return
 					}
 					b, ok := args[0].(*common.Beacon)
@@ -92,13 +121,21 @@ func c05Run(run *vfRun, sc vfbScenario) {
 					}
 					atomic.AddInt64(&nt.inflight, 1)
 					defer atomic.AddInt64(&nt.inflight, -1)
-					deadline := time.Now().Add(60 * time.Millisecond)
+					deadline := time.Now().Add(100 * time.Millisecond)
 					for time.Now().Before(deadline) && nt.Head(n) < b.Round {
 						time.Sleep(time.Millisecond)
 					}
 					if nt.Head(n) >= b.Round {
 						run.Count("aggregations_overtaken_by_sync", 1)
 					}
+					emu.Lock()
+					// (only while the harness moves the clocks in 1 s steps: during the scripted phase a step is a whole period
+					// and logical time has no finer grain)
+					if _, seen := hookAt[[2]uint64{uint64(n.pos), b.Round}]; !seen && atomic.LoadInt32(&fineSteps) == 1 {
+						hookAt[[2]uint64{uint64(n.pos), b.Round}] = n.clk.Now().Unix()
+						hookNote[[2]uint64{uint64(n.pos), b.Round}] = fmt.Sprintf("sync-stored-it-first=%v head-at-hook-exit=%d", nt.Head(n) >= b.Round, nt.Head(n))
+					}
+					emu.Unlock()
 				}
 				nt.mu.Unlock()
 			}
@@ -108,6 +145,13 @@ func c05Run(run *vfRun, sc vfbScenario) {
 				emu.Lock()
 				if p.GetRound() > lastEmit[from.pos] {
 					lastEmit[from.pos] = p.GetRound()
+				}
+				if _, seen := emitAt[[2]uint64{uint64(from.pos), p.GetRound()}]; !seen {
+					if atomic.LoadInt32(&fineSteps) == 1 {
+						emitAt[[2]uint64{uint64(from.pos), p.GetRound()}] = clk
+					} else {
+						emitAt[[2]uint64{uint64(from.pos), p.GetRound()}] = -1 // left during a whole-period step: no usable instant
+					}
 				}
 				emu.Unlock()
 			}
@@ -121,6 +165,66 @@ func c05Run(run *vfRun, sc vfbScenario) {
 			}
 		},
 		atEnd: func(nt *vfbNet, adv *vfbAdversary) {
+			var slowestStep time.Duration
+			atomic.StoreInt32(&fineSteps, 1)
+			defer func() {
+				if victim < 0 {
+					return
+				}
+				emu.Lock()
+				defer emu.Unlock()
+				ps, cs := int64(sc.PeriodS), int64(sc.CatchupS)
+				for k, th := range hookAt {
+					r := k[1]
+					if th < nt.genesis {
+						continue
+					}
+					cr := uint64((th-nt.genesis)/ps) + 1
+					te, emitted := emitAt[[2]uint64{k[0], r + 1}]
+					if cr <= r || !emitted || te < 0 {
+						continue // not behind, the next round came by another way, or no usable instant
+					}
+					run.Count("catch_up_launches_timed", 1)
+					if d := te - th; d >= cs+5 && ps >= cs+7 {
+						if slowestStep > time.Second {
+							run.Count("catch_up_rate_verdicts_skipped_box_not_keeping_pace", 1)
+							continue
+						}
+						info["victim_log_tail"] = append([]string(nil), victimLog...)
+						run.Violation("C05/catch-up-slower-than-the-catch-up-rate/after-own-aggregation",
+							fmt.Sprintf("node %d ran its aggregation of round %d at its clock %d while behind (clock round %d); its partial for round %d left %d s later (catch-up period %d s, period %d s): it waited for the next tick [%s]", k[0], r, th, cr, r+1, d, cs, ps, hookNote[k]), info)
+						return
+					}
+				}
+			}()
+			// pacing for the rate oracle: a 1 s step returns as soon as the network is quiet, which can be sooner than the
+			// victim needs to sign and send the partial its catch-up sleep has just released; logical time must not run
+			// away from it. Wait (bounded) for that emission — or for the round to arrive some other way.
+			waitVictim := func() {
+				if victim < 0 {
+					return
+				}
+				vn := nt.nodes[victim]
+				for i := 0; i < 300; i++ {
+					pending := false
+					now := vn.clk.Now().Unix()
+					emu.Lock()
+					for k, th := range hookAt {
+						if int(k[0]) != victim || now < th+int64(sc.CatchupS) {
+							continue
+						}
+						if _, sent := emitAt[[2]uint64{k[0], k[1] + 1}]; !sent && nt.Head(vn) == k[1] && vn.running {
+							pending = true
+						}
+					}
+					emu.Unlock()
+					if !pending {
+						return
+					}
+					time.Sleep(time.Millisecond)
+				}
+				run.Count("steps_that_waited_300ms_for_the_victims_catch_up_partial", 1)
+			}
 			hs := nt.honestRunning()
 			if len(hs) < nt.cfg.Thr {
 				run.Inconclusive("fewer than t honest nodes after heal")
@@ -153,18 +257,25 @@ func c05Run(run *vfRun, sc vfbScenario) {
 					ok = true
 					break
 				}
+				t0 := time.Now()
 				nt.Step(q)
+				if d := time.Since(t0); d > slowestStep {
+					slowestStep = d
+				}
+				waitVictim()
 			}
 			run.Count("heal_steps_used", int64(steps))
 			run.Count("missed_rounds_at_heal", int64(missed))
 			if !ok {
 				// slow machine? give real time with frozen clocks, then the same bound again with a slower pace
 				run.Count("slow_convergence_rechecks", 1)
+				// a 1 s step returns when the network is quiet, which on a busy box can be before the nodes have done the
+				// signing and verifying the step released: give every logical second 200 ms of real time as well
 				time.Sleep(2 * time.Second)
 				nt.Settle()
 				for i := 0; i < B && !ok; i++ {
 					nt.Step(q)
-					time.Sleep(50 * time.Millisecond)
+					time.Sleep(200 * time.Millisecond)
 					nt.Settle()
 					if w, _ := behind(); w == 0 {
 						ok = true
@@ -180,6 +291,7 @@ func c05Run(run *vfRun, sc vfbScenario) {
 			run.Count("converged_cases", 1)
 			// steady state: every due round keeps being produced by all (gaps are C02's subject; here: nobody
 			// falls behind again). Four periods, then a bounded number of 1 s steps to be level with the clock.
+			atomic.StoreInt32(&fineSteps, 0)
 			for i := 0; i < 4; i++ {
 				nt.Step(nt.cfg.Period)
 			}
@@ -195,11 +307,13 @@ func c05Run(run *vfRun, sc vfbScenario) {
 				time.Sleep(time.Second)
 				for s := 0; s < 2*nt.cfg.N+10 && !level; s++ {
 					nt.Step(q)
-					time.Sleep(30 * time.Millisecond)
+					time.Sleep(200 * time.Millisecond)
+					nt.Settle()
 					if w, _ := behind(); w == 0 {
 						level = true
 					}
 				}
+				run.Count("steady_state_rechecks_with_real_time", 1)
 			}
 			if !level {
 				_, who := behind()
